@@ -1,5 +1,7 @@
 import YatimlModel.Driver.LoadWire
 import YatimlModel.Model.Represent
+import YatimlModel.Spec.JsonProjection
+import YatimlModel.Driver.JsonCmd
 /-! Driver command `represent <dumpenv> <value>`. -/
 namespace YatimlModel.Driver
 open YatimlModel.Wire
@@ -52,6 +54,17 @@ def cmdRepresent : List Sexp → String
        | .ok o => "ok " ++ showNode o.node ++ " | ( " ++ String.intercalate " " (o.trace.map hex) ++ " )"
        | .error e => "err " ++ showDumpErr e)
     | _, _ => "bad-args"
+  | _ => "bad-args"
+
+/-- `jproject <value>`: the JSON projection `jsonOf` of a value (Spec/JsonProjection), or `outside` -/
+def cmdJproject : List Sexp → String
+  | [v] =>
+    match toVal v with
+    | some v =>
+      (match C07.jsonOf 100000 v with
+       | some jv => "ok " ++ showJV jv
+       | none => "outside")
+    | none => "bad-args"
   | _ => "bad-args"
 
 end YatimlModel.Driver
